@@ -968,7 +968,7 @@ def e2e(ctx):
             fails.append(f)
     for label, expr in E2E_WITNESSES:
         for form in forms: one(form, expr, 'witness:' + label)
-    n = ctx.scale(160, 2500)
+    n = ctx.scale(120, 2500)
     te = TExpr(rng)
     for i in range(n):
         d = rng.choice([1, 2, 2, 3])
@@ -1035,7 +1035,7 @@ def run(ctx):
     check_trees(ctx, wit + folded, 'witness')
     check_trees(ctx, list(exhaustive_pairs()), 'pairs')
     g = Gen(ctx.rng)
-    n = ctx.scale(2500, 60000)
+    n = ctx.scale(1500, 60000)
     trees = []
     for i in range(n):
         trees.append(('random', fix(g.expr(ctx.rng.choice([1, 2, 2, 3, 3, 4])))))
@@ -1050,7 +1050,7 @@ def run(ctx):
             ctx.count('note:outside:%s -> %s [%s]' % (s, r['src'], 'same' if same else 'SyntaxError' if back is None else 'DIFFERENT (never recompiled: lambdas are not external)'))
         else:
             ctx.count('note:outside:%s -> %s' % (s, r['error']))
-    parser_tie(ctx, ctx.scale(800, 12000))
+    parser_tie(ctx, ctx.scale(500, 12000))
     e2e(ctx)
     ctx.extra['lean_parse_mismatch'] = ctx.extra.get('lean_parse_mismatch', [])[:5]
 
